@@ -8,7 +8,7 @@ ID = 'C18'
 DOMAIN = 'sched'
 PROPS_FILES = ['Gin/Props/C18.lean']
 ANCHOR_FILES = ['config.py']
-RULE = ('2-4 real threads, each with a program of 2-5 actions from {use singleton key k (first or repeated use), call a '
+RULE = ('2-4 real threads, each with a program of 2-5 actions from {use singleton key k (first or repeated use; one key\'s constructor returns None), call a '
         'configurable under a scope (updating the operative record), read operative_config_str()}; the singleton table, the '
         'operative record and the locks of gin.config are replaced by instrumented objects with a scheduling point before '
         'every access, and a deterministic baton scheduler follows a random schedule (quick) or enumerates all schedules '
